@@ -145,7 +145,7 @@ theorem pt_ca_eq (p : Ty) (pa : Attrs) (c : Box) : childAllowed p pa c = pt_ca p
 
 /-- everything `postTable` asks of one child, given the type and wrapper flag of the parent -/
 def pt_kid (p : Ty) (tw : Bool) (c : Ty) (run : Bool) (csok : Bool) : Bool :=
-  rawTy c && !(c == .inline && run) && pt_ca p tw c run &&
+  rawTy c && pt_ca p tw c run &&
   (!tw || (c == .tableCaption || isTable c)) &&
   (!isTable p || c == .tableRowGroup) &&
   (!(p == .tableRowGroup) || c == .tableRow) &&
@@ -181,7 +181,7 @@ theorem pt_loc_iff (ty : Ty) (a : Attrs) (kids cols : List Box) : pt_loc ty a ki
     List.isEmpty_iff, beq_iff_eq, beq_eq_false_iff_ne]
 
 theorem pt_kid_iff (p : Ty) (tw : Bool) (c : Ty) (run csok : Bool) : pt_kid p tw c run csok = true ↔
-  (((((((rawTy c = true ∧ (c == Ty.inline && run) = false) ∧ pt_ca p tw c run = true) ∧
+  ((((((rawTy c = true ∧ pt_ca p tw c run = true) ∧
               (tw = false ∨ c = Ty.tableCaption ∨ isTable c = true)) ∧
             (isTable p = false ∨ c = Ty.tableRowGroup)) ∧
           (p ≠ Ty.tableRowGroup ∨ c = Ty.tableRow)) ∧
@@ -210,11 +210,11 @@ theorem pt_post_postTable (ty : Ty) (a : Attrs) (kids cols : List Box) (h : pt_p
     · rw [h2]; simp
   · rw [List.all_eq_true]
     intro c hc
-    obtain ⟨⟨⟨⟨⟨⟨⟨⟨k1, k2⟩, _⟩, _⟩, _⟩, _⟩, _⟩, _⟩, _⟩ := hk' c hc
-    rw [k1, k2]; rfl
+    obtain ⟨⟨⟨⟨⟨⟨⟨k1, _⟩, _⟩, _⟩, _⟩, _⟩, _⟩, _⟩ := hk' c hc
+    exact k1
   · rw [List.all_eq_true]
     intro c hc
-    obtain ⟨⟨⟨⟨⟨⟨⟨⟨_, _⟩, k3⟩, _⟩, _⟩, _⟩, _⟩, _⟩, _⟩ := hk' c hc
+    obtain ⟨⟨⟨⟨⟨⟨⟨_, k3⟩, _⟩, _⟩, _⟩, _⟩, _⟩, _⟩ := hk' c hc
     rw [pt_ca_eq]; exact k3
   · cases ht : a.tw
     · rfl
@@ -224,7 +224,7 @@ theorem pt_post_postTable (ty : Ty) (a : Attrs) (kids cols : List Box) (h : pt_p
       · have hall : kids.all (fun c => c.ty == .tableCaption || isTable c.ty) = true := by
           rw [List.all_eq_true]
           intro c hc
-          obtain ⟨⟨⟨⟨⟨⟨⟨⟨_, _⟩, _⟩, k4⟩, _⟩, _⟩, _⟩, _⟩, _⟩ := hk' c hc
+          obtain ⟨⟨⟨⟨⟨⟨⟨_, _⟩, k4⟩, _⟩, _⟩, _⟩, _⟩, _⟩ := hk' c hc
           rw [ht] at k4
           rcases k4 with k4 | k4 | k4
           · cases k4
@@ -240,25 +240,25 @@ theorem pt_post_postTable (ty : Ty) (a : Attrs) (kids cols : List Box) (h : pt_p
       · simp only [Bool.not_true, Bool.false_or, Bool.and_eq_true, List.all_eq_true, Bool.or_eq_true, beq_iff_eq]
         refine ⟨?_, hcols⟩
         intro c hc
-        obtain ⟨⟨⟨⟨⟨⟨⟨⟨_, _⟩, _⟩, _⟩, k5⟩, _⟩, _⟩, _⟩, _⟩ := hk' c hc
+        obtain ⟨⟨⟨⟨⟨⟨⟨_, _⟩, _⟩, k5⟩, _⟩, _⟩, _⟩, _⟩ := hk' c hc
         rcases k5 with k5 | k5
         · rw [hT] at k5; cases k5
         · exact k5
   · apply pt_imp_all
     intro hc c hcm
-    obtain ⟨⟨⟨⟨⟨⟨⟨⟨_, _⟩, _⟩, _⟩, _⟩, k6⟩, _⟩, _⟩, _⟩ := hk' c hcm
+    obtain ⟨⟨⟨⟨⟨⟨⟨_, _⟩, _⟩, _⟩, k6⟩, _⟩, _⟩, _⟩ := hk' c hcm
     rcases k6 with k6 | k6
     · exact absurd (by simpa using hc) k6
     · simp [k6]
   · apply pt_imp_all
     intro hc c hcm
-    obtain ⟨⟨⟨⟨⟨⟨⟨⟨_, _⟩, _⟩, _⟩, _⟩, _⟩, k7⟩, _⟩, _⟩ := hk' c hcm
+    obtain ⟨⟨⟨⟨⟨⟨⟨_, _⟩, _⟩, _⟩, _⟩, k7⟩, _⟩, _⟩ := hk' c hcm
     rcases k7 with k7 | k7
     · exact absurd (by simpa using hc) k7
     · simp [k7]
   · apply pt_imp_all
     intro hc c hcm
-    obtain ⟨⟨⟨⟨⟨⟨⟨⟨_, _⟩, _⟩, _⟩, _⟩, _⟩, _⟩, k8⟩, _⟩ := hk' c hcm
+    obtain ⟨⟨⟨⟨⟨⟨⟨_, _⟩, _⟩, _⟩, _⟩, _⟩, k8⟩, _⟩ := hk' c hcm
     rcases k8 with k8 | k8
     · exact absurd (by simpa using hc) k8
     · simp [k8]
@@ -376,7 +376,7 @@ theorem pt_loc_transfer (ty : Ty) (a : Attrs) (kids kids' cols : List Box) (h : 
 /-! ### what a processed child looks like from its parent -/
 
 def pt_kok (t : Ty) (run csok : Bool) : Bool :=
-  rawTy t && !(t == .inline && run) && (!isTable t || run) && (!(t == .tableCell) || csok)
+  rawTy t && (!isTable t || run) && (!(t == .tableCell) || csok)
 
 def pt_kidOK (c : Box) : Bool := pt_kok c.ty c.a.running (decide (1 ≤ c.a.colspan))
 
@@ -1210,7 +1210,7 @@ theorem pt_rawOK_rawOK (b : Box) (h : allW pt_rawOK b = true) : allW rawOK b = t
 
 theorem pt_rawOK_iff (ty : Ty) (a : Attrs) (kids cols : List Box) : pt_rawOK ty a kids cols = true ↔
   (((((rawTy ty = true ∧ cols = []) ∧ a.tw = false) ∧ (isParent ty = true ∨ kids = [])) ∧
-        ∀ (x : Box), x ∈ kids → rawTy x.ty = true ∧ (x.ty == Ty.inline && x.a.running) = false) ∧
+        ∀ (x : Box), x ∈ kids → rawTy x.ty = true) ∧
       (ty ≠ Ty.tableCell ∨ 1 ≤ a.colspan)) ∧
     ∀ (x : Box), x ∈ kids → x.ty ≠ Ty.tableCell ∨ 1 ≤ x.a.colspan := by
   simp only [pt_rawOK, rawOK, Bool.and_eq_true, Bool.or_eq_true, Bool.not_eq_true', List.all_eq_true,
@@ -1221,18 +1221,18 @@ def pt_AR (b r : Box) : Prop :=
   pt_Good r ∧ ((isTable b.ty = false ∨ b.a.running = true) → r.ty = b.ty ∧ r.a = b.a) ∧
     (isTable b.ty = true → b.a.running = false → (r.ty = .block ∨ r.ty = .inlineBlock) ∧ r.a.running = false)
 
-theorem pt_kok_of (t : Ty) (run csok : Bool) : rawTy t = true → (t == .inline && run) = false →
+theorem pt_kok_of (t : Ty) (run csok : Bool) : rawTy t = true →
     (isTable t = false ∨ run = true) → (t = .tableCell → csok = true) → pt_kok t run csok = true := by
   cases t <;> cases run <;> cases csok <;> decide
 
 theorem pt_C_of_AR (k x : Box) (har : pt_AR k x) (h1 : rawTy k.ty = true)
-    (h2 : (k.ty == .inline && k.a.running) = false) (h3 : k.ty ≠ .tableCell ∨ 1 ≤ k.a.colspan) : pt_C x := by
+    (h3 : k.ty ≠ .tableCell ∨ 1 ≤ k.a.colspan) : pt_C x := by
   refine ⟨har.1, ?_⟩
   unfold pt_kidOK
   by_cases hcase : isTable k.ty = false ∨ k.a.running = true
   · obtain ⟨e1, e2⟩ := har.2.1 hcase
     rw [e1, e2]
-    apply pt_kok_of _ _ _ h1 h2 hcase
+    apply pt_kok_of _ _ _ h1 hcase
     intro hc
     rcases h3 with h3 | h3
     · exact absurd hc h3
@@ -1296,7 +1296,7 @@ mutual
         have hC : ∀ x ∈ ks, pt_C x := by
           intro x hx
           obtain ⟨k, hk, har⟩ := hlist x hx
-          exact pt_C_of_AR k x har (r5 k hk).1 (r5 k hk).2 (r7 k hk)
+          exact pt_C_of_AR k x har (r5 k hk) (r7 k hk)
         have hb : pt_H (.mk ty a kids cols) := ⟨hrun, r3, r1, hp, r2, fun hc => by
           rcases r6 with r6 | r6
           · exact absurd hc r6
